@@ -277,7 +277,7 @@ def cone(prop):
             continue
         seen.append(f)
         src = open(f).read()
-        for m in re.finditer(r'^\s*(?:From\s+(\w+)\s+)?Require\s+(?:Import\s+|Export\s+)?([^\n]*?)\.\s*$', src, re.M):
+        for m in re.finditer(r'(?:From\s+(\w+)\s+)?Require\s+(?:Import\s+|Export\s+)?(.*?)\.(?:\s|$)', src, re.S):
             root, names = m.group(1), m.group(2)
             for nm in names.split():
                 parts = nm.split('.')
